@@ -84,8 +84,7 @@ func (r *runner) recordSkip(op []interface{}, t *txInfo, ret int, hang bool, pan
 	r.steps = append(r.steps, st)
 	if hang || pan != "" { // abandoned pool: its blocked goroutines join the baseline
 		r.dead = true
-		time.Sleep(10 * time.Millisecond)
-		baseG = runtime.NumGoroutine()
+		baseG = settledGoroutines()
 	}
 }
 
